@@ -606,7 +606,15 @@ func (r *webRun) newGinApp() webApp {
 	}
 	for i := 0; i < c.NMw; i++ {
 		i := i
-		opts = append(opts, godigin.WithMiddleware(func(s godi.Scope, g *gin.Context) error { return r.mwBody(i, s) }))
+		opts = append(opts, godigin.WithMiddleware(func(s godi.Scope, g *gin.Context) error {
+			err := r.mwBody(i, s)
+			if rec := r.rec(); err != nil && rec != nil && rec.id%2 == 1 {
+				// a middleware that answers by itself before reporting the failure (401 + error):
+				// the error handler still runs exactly once
+				g.AbortWithStatus(401)
+			}
+			return err
+		}))
 	}
 	var ho []godigin.HandlerOption
 	ho = append(ho, godigin.WithPanicRecovery(c.Recovery))
